@@ -178,7 +178,7 @@ func GenDocs(t *Tape, wantBucket bool) *Scenario {
 			body = fmt.Sprintf(`<?xml version="1.0" encoding="UTF-8"?><urlset xmlns="http://www.sitemaps.org/schemas/sitemap/0.9"><url><loc>%s</loc></url><url><loc>%s</loc></url><url><loc>%s</loc></url></urlset>`,
 				newOut(), newOut(), newAsset(".html"))
 		case "m3u8":
-			ct = "application/vnd.apple.mpegurl"
+			ct = c.Pick("application/vnd.apple.mpegurl", "application/vnd.apple.mpegurl", "application/x-mpegURL", "application/x-mpegurl; charset=utf-8", "Application/X-MpegURL") // both registered names, any case
 			if c.Chance(1, 2) {
 				body = fmt.Sprintf("#EXTM3U\n#EXT-X-VERSION:3\n#EXT-X-TARGETDURATION:10\n#EXTINF:10.0,\n%s\n#EXTINF:10.0,\n%s\n#EXT-X-ENDLIST\n", newAsset(".ts"), newAsset(".ts"))
 			} else {
